@@ -42,6 +42,10 @@ def families(tier):
             hs.append(dict(bus='B', pat='C', name='hcB', prog=[('pause',)]))
         main = [('disp', 'A', 'P', 'ff'), ('pause',), ('disp', 'A', 'X', 'ff'), ('await', 'P'), ('disp', 'A', 'X2', 'ff')]
         add('c09.tree', f'p{int(par)}-{m1}-{m2}{b2}-n{int(nest)}', buses, hs, main, par=par)
+        if par:
+            # the same with an event that has no deadline at all (event_timeout=None is legitimate)
+            main0 = [('disp', 'A', 'P', 'ff', {'timeout': None})] + main[1:]
+            add('c09.tree', f'p1-{m1}-{m2}{b2}-n{int(nest)}-nodeadline', buses, hs, main0, par=par)
     # family: forwarding of roots / children; handlers before and after the forward; explicit parents; self re-dispatch
     for topo, where, child, par in itertools.product(['AB', 'ABC', 'A>BC'], ['after', 'before'], ['none', 'ff', 'await'], (False, True)):
         names = ['A', 'B'] if topo == 'AB' else ['A', 'B', 'C']
